@@ -1,14 +1,15 @@
-"""Fail-closed translator: the methods of redress/circuit.py's CircuitBreaker -> PyIRH terms (CircuitIR.v).
-Every Python AST shape is mapped to one PyIRH constructor; anything else raises TranslationError.  __init__ (argument
-validation, building the sets and dictionaries) is NOT translated: the initial object state is part of the hand-written model
-(Breaker.kinit / mk_kcfg) and is tied by the correspondence check only."""
+"""Fail-closed translator: the methods of redress/circuit.py's CircuitBreaker (constructor included) -> PyIRH terms
+(CircuitIR.v).  Every Python AST shape is mapped to one PyIRH constructor; anything else raises TranslationError.  The message
+of a `raise` is not translated (SRaise), the default values of failure_threshold / window_s / recovery_timeout_s / clock are
+recorded but not modelled (the checks always pass them)."""
 import ast
 import os
 
 from pyir_translate import TranslationError, _Rename, q
 
 STATES = ["CLOSED", "OPEN", "HALF_OPEN"]
-METHODS = ["state", "allow", "record_success", "record_failure", "record_cancel", "_note_failure", "_prune", "_clear_failures"]
+INIT_PARAMS = ["failure_threshold", "window_s", "recovery_timeout_s", "trip_on", "class_thresholds", "clock"]
+METHODS = ["__init__", "state", "allow", "record_success", "record_failure", "record_cancel", "_note_failure", "_prune", "_clear_failures"]
 REQUIRED_IMPORTS = {"import threading", "import time", "from collections import deque", "from collections.abc import Callable, Mapping",
                     "from dataclasses import dataclass", "from enum import Enum", "from .errors import ErrorClass",
                     "from .events import EventName"}
@@ -23,6 +24,7 @@ class Ctx:
     def __init__(self, events):
         self.events = events
         self.used_events = set()
+        self.init_defaults = {}
 
 
 def expr(n, cx):
@@ -57,6 +59,13 @@ def expr(n, cx):
             return "EClock"
         if isinstance(f, ast.Name) and f.id == "len" and len(n.args) == 1:
             return f"(ELen {expr(n.args[0], cx)})"
+        if isinstance(f, ast.Name) and f.id == "dict" and len(n.args) == 1:
+            return f"(EDictCopy {expr(n.args[0], cx)})"
+        if isinstance(f, ast.Name) and f.id == "set" and len(n.args) == 1:
+            return f"(ESetOf {expr(n.args[0], cx)})"
+        if (isinstance(f, ast.Attribute) and isinstance(f.value, ast.Name) and f.value.id == "threading" and f.attr == "Lock"
+                and not n.args):
+            return "ELock"
         if isinstance(f, ast.Name) and f.id == "_BreakerDecision" and 2 <= len(n.args) <= 3:
             args = [expr(a, cx) for a in n.args] + (["ENone"] if len(n.args) == 2 else [])
             return "(ERec [" + "; ".join(args) + "])"
@@ -82,6 +91,13 @@ def expr(n, cx):
         raise TranslationError(f"comparison {op.__name__}")
     if isinstance(n, ast.BoolOp) and isinstance(n.op, ast.And) and len(n.values) == 2:
         return f"(EAnd {expr(n.values[0], cx)} {expr(n.values[1], cx)})"
+    if isinstance(n, ast.BoolOp) and isinstance(n.op, ast.Or) and len(n.values) == 2:
+        return f"(EOr {expr(n.values[0], cx)} {expr(n.values[1], cx)})"
+    if isinstance(n, ast.Dict) and not n.keys:
+        return "EEmptyDict"
+    if isinstance(n, ast.Set) and n.elts and all(isinstance(e, ast.Attribute) and isinstance(e.value, ast.Name) and e.value.id == "ErrorClass"
+                                                for e in n.elts):
+        return "(ESetLit [" + "; ".join(q(e.attr) for e in n.elts) + "])"
     raise TranslationError(f"expression {ast.dump(n)[:80]}")
 
 
@@ -115,10 +131,23 @@ def stmt(n, cx):
                 return f"(SCallAssign {q(t.id)} {q(n.value.func.attr)} [{'; '.join(expr(a, cx) for a in n.value.args)}])"
             return f"(SAssign {q(t.id)} {expr(n.value, cx)})"
         if is_self_attr(t):
+            if is_deque_ctor(n.value):
+                return f"(SAttrNewDeque {q(t.attr)})"
             return f"(SSetAttr {q(t.attr)} {expr(n.value, cx)})"
         if isinstance(t, ast.Subscript) and is_self_attr(t.value):
             return f"(SDictSet {q(t.value.attr)} {expr(t.slice, cx)} {expr(n.value, cx)})"
         raise TranslationError(f"assignment target {ast.unparse(t)}")
+    if isinstance(n, ast.AnnAssign) and is_self_attr(n.target) and n.value is not None:
+        if is_deque_ctor(n.value):
+            return f"(SAttrNewDeque {q(n.target.attr)})"
+        return f"(SSetAttr {q(n.target.attr)} {expr(n.value, cx)})"
+    if isinstance(n, ast.Raise):
+        return "SRaise"
+    if (isinstance(n, ast.For) and not n.orelse and isinstance(n.target, ast.Tuple) and len(n.target.elts) == 2
+            and all(isinstance(e, ast.Name) for e in n.target.elts) and isinstance(n.iter, ast.Call)
+            and isinstance(n.iter.func, ast.Attribute) and n.iter.func.attr == "items" and not n.iter.args and not n.iter.keywords):
+        kx, vx = n.target.elts[0].id, n.target.elts[1].id
+        return f"(SForItems {q(kx)} {q(vx)} {expr(n.iter.func.value, cx)} {seq([stmt(x, cx) for x in n.body])})"
     if isinstance(n, ast.If):
         return f"(SIf {expr(n.test, cx)} {seq([stmt(x, cx) for x in n.body])} {seq([stmt(x, cx) for x in n.orelse])})"
     if isinstance(n, ast.While) and not n.orelse:
@@ -134,6 +163,11 @@ def stmt(n, cx):
             raise TranslationError(f"keyword arguments in {ast.unparse(c)}")
         if is_helper_call(c):
             return f"(SCall {q(f.attr)} [{'; '.join(expr(a, cx) for a in c.args)}])"
+        # <local set>.update(<dict>.keys())
+        if (isinstance(f, ast.Attribute) and f.attr == "update" and isinstance(f.value, ast.Name) and len(c.args) == 1
+                and isinstance(c.args[0], ast.Call) and isinstance(c.args[0].func, ast.Attribute) and c.args[0].func.attr == "keys"
+                and not c.args[0].args and not c.args[0].keywords):
+            return f"(SSetUpdateKeys {q(f.value.id)} {expr(c.args[0].func.value, cx)})"
         if isinstance(f, ast.Attribute) and (is_self_attr(f.value) or isinstance(f.value, ast.Name)):
             tgt = expr(f.value, cx)
             if f.attr == "append" and len(c.args) == 1:
@@ -204,9 +238,20 @@ def translate(repo_src):
             continue
         if not isinstance(f, ast.FunctionDef):
             raise TranslationError(f"class member {type(f).__name__}")
-        if f.name == "__init__":
-            continue
         a = f.args
+        if f.name == "__init__":
+            if f.decorator_list or a.vararg or a.kwarg or a.posonlyargs or len(a.args) != 1 or a.args[0].arg != "self":
+                raise TranslationError("__init__: unsupported signature")
+            for n in ast.walk(f):
+                if isinstance(n, (ast.Global, ast.Nonlocal, ast.Lambda, ast.FunctionDef, ast.Try, ast.While)) and n is not f:
+                    raise TranslationError(f"__init__: {type(n).__name__}")
+            params = [x.arg for x in a.kwonlyargs]
+            if params != INIT_PARAMS:
+                raise TranslationError(f"__init__ parameters {params}")
+            cx.init_defaults = {x.arg: (ast.unparse(d) if d is not None else None) for x, d in zip(a.kwonlyargs, a.kw_defaults)}
+            canonical(f, params, False)
+            out[f.name] = (params, seq([stmt(x, cx) for x in f.body]))
+            continue
         decos = [ast.unparse(d) for d in f.decorator_list]
         if decos not in ([], ["property"]) or (decos == ["property"]) != (f.name == "state"):
             raise TranslationError(f"{f.name}: decorators {decos}")
@@ -222,6 +267,8 @@ def translate(repo_src):
         out[f.name] = (params, seq([stmt(x, cx) for x in f.body]))
     if sorted(out) != sorted(METHODS):
         raise TranslationError(f"methods {sorted(out)}")
+    if cx.init_defaults.get("trip_on") != "None" or cx.init_defaults.get("class_thresholds") != "None":
+        raise TranslationError(f"__init__ defaults {cx.init_defaults}")
     return out, {k: events[k] for k in sorted(cx.used_events)}
 
 
@@ -234,7 +281,7 @@ def generate(repo_src, out_path, template_path):
         ident = name.strip("_")
         lines.append(f"Definition {ident}_params : list string := [{'; '.join(q(p) for p in params)}].")
         lines.append(f"Definition {ident}_ir : stmt :=\n  {body}.")
-    helpers = [n for n in meths if n.startswith("_")]
+    helpers = [n for n in meths if n.startswith("_") and n != "__init__"]
     lines.append("Definition circuit_helpers : helpers := [" + "; ".join(
         f"({q(n)}, ({n.strip('_')}_params, {n.strip('_')}_ir))" for n in helpers) + "].")
     lines.append("(* event names used: " + ", ".join(f"{k} = {v!r}" for k, v in used.items()) + " *)")
